@@ -1862,6 +1862,9 @@ class __EVAL(DebuggingOperation):
 
 def disassemble(v: int, allow_unknown: bool = False) -> AbstractOperation:
     """Disassemble a 16-bit integer into a HERA operation."""
+    if not 0 <= v < 2 ** 16:
+        raise HERAError("bit pattern does not fit in 16 bits")
+
     # Iterating over every HERA class is inefficient but simple.
     for cls in name_to_class.values():
         if cls.BITV != "":
